@@ -481,7 +481,8 @@ def drv_random(ctx, k, rng):
     ctx.seen(mon)
     N = int(pick(rng, [4096, 20000]))
     seed = int(rng.integers(1 << 20))
-    w = randn_sobol_boxmuller(N, 2, dtype=F64, seed=seed) if rng.random() < 0.5 else RandnSobolBoxMuller(scramble=True, seed=seed)(N, 2, dtype=F64)
+    scr = bool(rng.random() < 0.7)
+    w = randn_sobol_boxmuller(N, 2, dtype=F64, seed=seed, scramble=scr) if rng.random() < 0.5 else RandnSobolBoxMuller(scramble=scr, seed=seed)(N, 2, dtype=F64)
     ok = w.shape == (N, 2) and bool(torch.isfinite(w).all()) and abs(float(w.mean())) <= 6 / math.sqrt(2 * N) and abs(float(w.var()) - 1) <= 8 / math.sqrt(2 * N)
     ctx.check(mon, ok, "sobol", f"Sobol/Box-Muller normals (all {2 * N} numbers): mean {float(w.mean())!r}, variance {float(w.var())!r}", sig=(N, "flat"))
     # per column (= per time step when used as a simulation engine): each column must be standard normal as well
